@@ -16,6 +16,7 @@ def register_primitive_enum(repo):
         raise Inconclusive("unexpected primitive! body")
     sym.ENUMS["Primitive"] = variants
     sym.ENUMS["Type"] = ["Nil"] + variants
+    register_enum_from_source(os.path.join(repo, "bytecode/src/variables/primitive.rs"), "HeapPrimitive")
     return variants
 
 
